@@ -1,7 +1,7 @@
 """Property -> rules table."""
 from __future__ import annotations
 
-from . import bounds, game, gym, save
+from . import bounds, evaluation, game, gameplay, gym, save, solvers
 
 _NOTE = ("Static analysis of /repo's current source (Python ast, own name resolution, provenance terms, "
          "path-sensitive walks). Decides the structural necessary conditions listed; does not observe numeric behaviour.")
@@ -30,6 +30,15 @@ PROPERTIES: dict[str, dict] = {
             "rule": _SITE_RULE},
     "C09": {"title": "The reveal-one-coalition environment", "rules": [gym.rule_c09_typestate, gym.rule_c09_step, gym.rule_c09_spaces, gym.rule_c09_reset, gym.rule_c09_done, gym.rule_h3_undo],
             "explanation": _NOTE + " C09: T1 recompute-before-observe typestate, Y1 reveal pairing, Y2 index-space agreement, Y3 reset order/aliasing, Y4 explorable set, Y5 reward sign, D1 done predicate, H3 undo pairing.",
+            "rule": _SITE_RULE},
+    "C11": {"title": "Exhaustive search", "rules": [evaluation.rule_p1_pool_api, gameplay.rule_c11_worker, gameplay.rule_p4_paired, gameplay.rule_c11_best_states, gameplay.rule_l1_lazy_reuse],
+            "explanation": _NOTE + " C11: P1 order-preserving pool API, P2 worker purity + T1 recompute-before-gap, P3 enumeration shape, P4 paired get_values/set_known_values arguments, P5 best-states selection, P9 meta-game, L1 single-use iterator reuse (path-sensitive, package-wide).",
+            "rule": _SITE_RULE},
+    "C12": {"title": "evaluate() records true trajectories; independent of parallelism", "rules": [evaluation.rule_c12_recording, evaluation.rule_p1_pool_api, evaluation.rule_c12_rng],
+            "explanation": _NOTE + " C12: Q1 recording order/positions/keys in eval_one, Q2 task tuples and stacking in evaluate, P1 order-preserving pool API, Q3 RNG-ownership analysis across the task boundary (shared and process-global RNG state).",
+            "rule": _SITE_RULE},
+    "C13": {"title": "Built-in solvers", "rules": [solvers.rule_c13_pairing_readonly, solvers.rule_c13_validity, solvers.rule_c13_choice, solvers.rule_c13_expected_greedy, solvers.rule_c13_registry],
+            "explanation": _NOTE + " C13: V1 step/unstep pairing on all paths, V2 read-only use of the env, V3 returned action drawn from the mask-filtered list, V4 choice rules (extremum polarity, first match), V5 expected greedy (argmin over games axis, append+remove, curve row), REG-S registry.",
             "rule": _SITE_RULE},
     "C16": {"title": "The size-aggregated environment", "rules": [gym.rule_c16],
             "explanation": _NOTE + " C16: Z1 aggregation of every observation/mask, Z2 candidate set = size AND mask, Z3 pass-through, Z4 sizes aligned with the inner explorable list.",
